@@ -48,14 +48,14 @@ COND = Family(
                 "NoLiveWaiterOnFreeLock", "Residue"],
     nt_of=lambda c: int(c["NT"]), compare_final=cmp(("owner", "w", "nh", "out", "nc")),
     configs=[
-        ModelCfg("c-n2o3e1", consts(2, 3, 1, COPS), emit=True, check=False, max_scenarios=5000),
+        ModelCfg("c-n2o3e1", consts(2, 3, 1, COPS), emit=True, check=False, max_scenarios=3000),
         # three waiters and a notifier; one cancellation (pass-on must go to the NEXT waiter)
         ModelCfg("c-n4o2e1-w", consts(4, 2, 1, '{"acq", "wait", "notify1"}'), emit=True, check=False,
-                 max_scenarios=8000),
+                 max_scenarios=4000),
         # clients survive the cancellation of their scope and carry on (wait again, notify, re-acquire)
         ModelCfg("c-n2o4e2-retry", consts(2, 4, 2, '{"acq", "wait", "notify1"}', env='{"cancel"}', retry=True),
-                 emit=True, check=False, replay_kw={"retry": True}, max_scenarios=4000),
-        ModelCfg("c-n3o4e2-retry", consts(3, 4, 2, COPS, retry=True), simulate=1200, check=False,
+                 emit=True, check=False, replay_kw={"retry": True}, max_scenarios=2000),
+        ModelCfg("c-n3o4e2-retry", consts(3, 4, 2, COPS, retry=True), simulate=800, check=False,
                  replay_kw={"retry": True}),
         ModelCfg("c-n3o3e1", consts(3, 3, 1, '{"acq", "wait", "notify1", "notifyall"}'),
                  tiers=("quick",), simulate=1500),
